@@ -21,10 +21,12 @@ import (
 )
 
 type Item struct {
-	Id   int64 `sql:",primary"`
-	Grp  int32
-	Name string
-	Opt  *int64
+	Id    int64  `sql:",primary"`
+	Draft string `sql:"-"` // not a column: column order and struct field index differ from here on
+	Grp   int32
+	Name  string
+	cache []int // unexported: not a column either
+	Opt   *int64
 }
 
 func p64(v int64) *int64 { return &v }
@@ -57,25 +59,35 @@ type write struct {
 func writes() []write {
 	return []write{
 		{"insert(3,g1,a)", func(ctx context.Context, db *sqlgen.DB) error {
-			_, err := db.InsertRow(ctx, &Item{3, 1, "a", nil})
+			_, err := db.InsertRow(ctx, &Item{Id: 3, Draft: "d", Grp: 1, Name: "a", Opt: nil})
 			return err
 		}},
 		{"insert(4,g2,b,5)", func(ctx context.Context, db *sqlgen.DB) error {
-			_, err := db.InsertRow(ctx, &Item{4, 2, "b", p64(5)})
+			_, err := db.InsertRow(ctx, &Item{Id: 4, Draft: "d", Grp: 2, Name: "b", Opt: p64(5)})
 			return err
 		}},
-		{"update(1:g1->g2)", func(ctx context.Context, db *sqlgen.DB) error { return db.UpdateRow(ctx, &Item{1, 2, "a", nil}) }},
-		{"update(2:g2->g1)", func(ctx context.Context, db *sqlgen.DB) error { return db.UpdateRow(ctx, &Item{2, 1, "b", p64(5)}) }},
-		{"update(1:name)", func(ctx context.Context, db *sqlgen.DB) error { return db.UpdateRow(ctx, &Item{1, 1, "z", nil}) }},
-		{"update(2:opt->nil)", func(ctx context.Context, db *sqlgen.DB) error { return db.UpdateRow(ctx, &Item{2, 2, "b", nil}) }},
-		{"update(1:opt->5)", func(ctx context.Context, db *sqlgen.DB) error { return db.UpdateRow(ctx, &Item{1, 1, "a", p64(5)}) }},
+		{"update(1:g1->g2)", func(ctx context.Context, db *sqlgen.DB) error {
+			return db.UpdateRow(ctx, &Item{Id: 1, Draft: "d", Grp: 2, Name: "a", Opt: nil})
+		}},
+		{"update(2:g2->g1)", func(ctx context.Context, db *sqlgen.DB) error {
+			return db.UpdateRow(ctx, &Item{Id: 2, Draft: "d", Grp: 1, Name: "b", Opt: p64(5)})
+		}},
+		{"update(1:name)", func(ctx context.Context, db *sqlgen.DB) error {
+			return db.UpdateRow(ctx, &Item{Id: 1, Draft: "d", Grp: 1, Name: "z", Opt: nil})
+		}},
+		{"update(2:opt->nil)", func(ctx context.Context, db *sqlgen.DB) error {
+			return db.UpdateRow(ctx, &Item{Id: 2, Draft: "d", Grp: 2, Name: "b", Opt: nil})
+		}},
+		{"update(1:opt->5)", func(ctx context.Context, db *sqlgen.DB) error {
+			return db.UpdateRow(ctx, &Item{Id: 1, Draft: "d", Grp: 1, Name: "a", Opt: p64(5)})
+		}},
 		{"delete(1)", func(ctx context.Context, db *sqlgen.DB) error { return db.DeleteRow(ctx, &Item{Id: 1}) }},
 		{"upsert(2,g1,c)", func(ctx context.Context, db *sqlgen.DB) error {
-			_, err := db.UpsertRow(ctx, &Item{2, 1, "c", nil})
+			_, err := db.UpsertRow(ctx, &Item{Id: 2, Draft: "d", Grp: 1, Name: "c", Opt: nil})
 			return err
 		}},
 		{"upsert(9,g1,a)", func(ctx context.Context, db *sqlgen.DB) error {
-			_, err := db.UpsertRow(ctx, &Item{9, 1, "a", p64(5)})
+			_, err := db.UpsertRow(ctx, &Item{Id: 9, Draft: "d", Grp: 1, Name: "a", Opt: p64(5)})
 			return err
 		}},
 	}
